@@ -10,6 +10,7 @@ import (
 	"time"
 
 	"github.com/dtn7/dtn7-go/verif/ev"
+	"github.com/dtn7/dtn7-go/verif/gen"
 	"github.com/dtn7/dtn7-go/verif/vtime"
 )
 
@@ -29,7 +30,12 @@ func DtnNow() uint64 {
 	return uint64(VNow.UnixNano()/1000000) - 946684800000
 }
 
-func useVirtualClock() { vtime.SetVirtual(VNow) }
+func useVirtualClock() {
+	vtime.SetVirtual(VNow)
+	// one-time registrations must not happen for the first time inside a managed thread (a real sync.Once would
+	// be held across a schedule point)
+	gen.RegisterAll()
+}
 
 func jsonOf(x interface{}) string {
 	b, _ := json.Marshal(x)
